@@ -6,8 +6,9 @@ IDS=${@:-$(ls seeded)}
 for id in $IDS; do
   P=${id%%-*}; P=${P%b}
   if ! git -C /repo diff --quiet; then echo "$id /repo dirty"; exit 3; fi
-  if ! git -C /repo apply --check /verif/seeded/$id/patch.diff 2>/dev/null; then echo "$id $P NOAPPLY"; continue; fi
-  git -C /repo apply /verif/seeded/$id/patch.diff
+  PATCH=/verif/seeded/$id/patch.diff; [ -f /verif/seeded/$id/patch-current.diff ] && PATCH=/verif/seeded/$id/patch-current.diff
+  if ! git -C /repo apply --check $PATCH 2>/dev/null; then echo "$id $P NOAPPLY"; continue; fi
+  git -C /repo apply $PATCH
   out=$(./check $P --tier $TIER 2>&1); rc=$?
   git -C /repo checkout -- . ; git -C /repo clean -fdq
   first=$(echo "$out" | grep -m1 "first:" | cut -c1-260)
